@@ -3,6 +3,7 @@ package c06
 
 import (
 	"fmt"
+	"net/http"
 	"os"
 	"runtime"
 	"sort"
@@ -44,6 +45,8 @@ type Program struct {
 	// Rounds > 1: a tiny program that is run this many times, each time on a fresh router, inside one
 	// child process - narrow windows need many schedule samples of a short program rather than one long one
 	Rounds int `json:"rounds,omitempty"`
+	// Recovery: the router has a recovery function and the never-touched route /boom/{id} panics
+	Recovery bool `json:"recovery,omitempty"`
 }
 
 type upat struct {
@@ -60,6 +63,9 @@ var untouched = []upat{
 	}},
 }
 
+// boom is a never-touched route whose handler panics; only requested when the router has a recovery function
+var boom = upat{"/boom/{id}", []string{"GET"}, func(v string) (string, map[string]string) { return "/boom/v" + v, map[string]string{"id": "v" + v} }}
+
 var toggled = []struct{ pattern, path string }{
 	{"/keep/x", "/keep/x"}, {"/ke", "/ke"}, {"/keep/{id}/y", "/keep/v1/y"}, {"/keep2/z", "/keep2/z"},
 	{"/k/{a}/z", "/k/a/z"}, {"/kee", "/kee"}, {"/{any}", "/zzz"}, {"/keep/{id}/{z}", "/keep/v1/q"},
@@ -69,7 +75,12 @@ var toggled = []struct{ pattern, path string }{
 	{"/keep/d", "/keep/d"}, {"/keep/e", "/keep/e"},
 	// extensions hanging below other toggled routes
 	{"/keep/dd", "/keep/dd"}, {"/keep/a/deep", "/keep/a/deep"},
+	// rivals: the same routes under other parameter names - a router never holds both of a pair
+	{"/keep/{uid}/y", "/keep/v1/y"}, {"/k/{a2}/z", "/k/a/z"}, {`/r/{n:\d+}/a`, "/r/5/a"}, {`/r/{m:\d+}/a`, "/r/5/a"},
 }
+
+// rivalPairs: two toggled patterns that are identical up to parameter names.
+var rivalPairs = [][2]int{{2, 18}, {4, 19}, {20, 21}}
 
 // duelPairs: a toggled route and another one whose node hangs below it. In a duel the first is
 // registered and removed by several writers while the second is only ever registered.
@@ -83,6 +94,7 @@ func gen(t *rapid.T) Program {
 	var p Program
 	p.Procs = rapid.SampledFrom([]int{2, 4, 16}).Draw(t, "procs")
 	p.Trace = rapid.Bool().Draw(t, "trace")
+	p.Recovery = rapid.IntRange(0, 2).Draw(t, "recovery") == 0
 	p.Pre = rapid.SliceOfNDistinct(rapid.IntRange(0, len(toggled)-1), 0, 10, rapid.ID[int]).Draw(t, "pre")
 	nw := rapid.IntRange(1, 4).Draw(t, "nwriters")
 	nr := rapid.IntRange(1, 6).Draw(t, "nreaders")
@@ -98,11 +110,17 @@ func gen(t *rapid.T) Program {
 	}
 	if mini || rapid.IntRange(0, 2).Draw(t, "duel") == 0 {
 		nw = rapid.IntRange(2, 4).Draw(t, "duelWriters")
-		pair := rapid.SampledFrom(duelPairs[:3]).Draw(t, "duelPair")
-		duel = []int{pair[0], pair[0], pair[1]}
-		duelKeep = pair[1]
-		if rapid.Bool().Draw(t, "duelAbove") {
-			duel = append(duel, rapid.SampledFrom([]int{1, 5}).Draw(t, "duelAboveP")) // a node above never-touched routes
+		if rapid.IntRange(0, 2).Draw(t, "rivals") == 0 {
+			// two writers race to register (and remove) the two spellings of one route
+			pair := rapid.SampledFrom(rivalPairs).Draw(t, "rivalPair")
+			duel = []int{pair[0], pair[1]}
+		} else {
+			pair := rapid.SampledFrom(duelPairs[:3]).Draw(t, "duelPair")
+			duel = []int{pair[0], pair[0], pair[1]}
+			duelKeep = pair[1]
+			if rapid.Bool().Draw(t, "duelAbove") {
+				duel = append(duel, rapid.SampledFrom([]int{1, 5}).Draw(t, "duelAboveP")) // a node above never-touched routes
+			}
 		}
 	}
 	for w := 0; w < nw; w++ {
@@ -162,6 +180,9 @@ func gen(t *rapid.T) Program {
 				op.M = rapid.SampledFrom([]string{"GET", "POST", "OPTIONS", "DELETE"}).Draw(t, "rtm")
 			case k < 8:
 				op.Kind = "routes"
+				if p.Recovery && rapid.Bool().Draw(t, "rpanic") {
+					op.Kind = "panic"
+				}
 			default:
 				op.Kind = "url"
 				op.P = rapid.IntRange(0, len(untouched)+len(toggled)-1).Draw(t, "rurl")
@@ -191,6 +212,13 @@ func runProgram(p Program) (map[string]float64, *rig.Violation) {
 	if p.Trace {
 		opts = append(opts, mux.WithTrace(&rig.H{ID: "trace", Kind: "route"}))
 	}
+	var recovered atomic.Int64
+	if p.Recovery {
+		opts = append(opts, mux.WithRecovery(func(w http.ResponseWriter, msg any) {
+			recovered.Add(1)
+			w.WriteHeader(http.StatusInternalServerError)
+		}))
+	}
 	r := mux.NewRouter[*rig.H]("r", rig.Call, &rig.H{ID: "404", Kind: "404"},
 		func(n types.Node) *rig.H { return &rig.H{ID: "405", Kind: "405", Node: n} },
 		func(n types.Node) *rig.H { return &rig.H{ID: "options", Kind: "options", Node: n} },
@@ -200,6 +228,9 @@ func runProgram(p Program) (map[string]float64, *rig.Violation) {
 		h := newH(u.pattern)
 		uid[u.pattern] = h.ID
 		r.Handle(u.pattern, h, nil, u.methods...)
+	}
+	if p.Recovery {
+		r.Handle(boom.pattern, &rig.H{ID: tag(boom.pattern, hid.Add(1)), Kind: "route", Script: []rig.Action{{Op: "panic", V: "boom"}}}, nil, boom.methods...)
 	}
 	for _, i := range p.Pre {
 		rig.Try(func() { r.Handle(toggled[i].pattern, newH(toggled[i].pattern), nil, "GET") })
@@ -223,6 +254,10 @@ func runProgram(p Program) (map[string]float64, *rig.Violation) {
 	for _, tg := range toggled {
 		parsed[tg.pattern] = pat.MustParse(tg.pattern, nil)
 		all[tg.pattern] = true
+	}
+	if p.Recovery {
+		parsed[boom.pattern] = pat.MustParse(boom.pattern, nil)
+		all[boom.pattern] = true
 	}
 	allow := func(ms []string) []string {
 		set := map[string]bool{"OPTIONS": true}
@@ -347,6 +382,17 @@ func runProgram(p Program) (map[string]float64, *rig.Violation) {
 							fail(rig.Violf("foreign-handler", "%s: %s %s on route %q ran the %s handler of %q", where, op.M, tg.path, o.Pattern, o.BaseKind, o.BuiltFor))
 						}
 					}
+				case "panic":
+					path, params := boom.path(fmt.Sprint(ri*1000 + i))
+					o := rig.Serve(r, rig.Req{Method: "GET", Path: path})
+					switch {
+					case o.Panicked:
+						fail(rig.Violf("reader-fault", "%s: GET %s: the handler's panic was not recovered although the router has a recovery function: %v", where, path, o.PanicVal))
+					case o.Pattern != boom.pattern || !rig.EqualParams(o.Params, params):
+						fail(rig.Violf("foreign-params", "%s: GET %s reached route %q with params %v, its own are %v", where, path, o.Pattern, o.Params, params))
+					case o.EffStatus() != http.StatusInternalServerError:
+						fail(rig.Violf("recovery-not-run", "%s: GET %s: status %d, the recovery function writes 500", where, path, o.EffStatus()))
+					}
 				case "routes":
 					var routes map[string][]string
 					if v, panicked := rig.Try(func() { routes = r.Routes() }); panicked {
@@ -386,7 +432,7 @@ func runProgram(p Program) (map[string]float64, *rig.Violation) {
 						}
 					} else {
 						tg := toggled[op.P-len(untouched)]
-						params := map[string]string{"id": "v1", "a": "a", "any": "zzz", "z": "q", "w": "w"}
+						params := map[string]string{"id": "v1", "uid": "v1", "a": "a", "a2": "a", "n": "5", "m": "5", "any": "zzz", "z": "q", "w": "w"}
 						var got string
 						var err error
 						if v, panicked := rig.Try(func() { got, err = r.URL(true, tg.pattern, params) }); panicked {
@@ -454,9 +500,50 @@ func runProgram(p Program) (map[string]float64, *rig.Violation) {
 			}
 		}
 	}
+	rival := map[string]string{}
+	for _, pr := range rivalPairs {
+		rival[toggled[pr[0]].pattern], rival[toggled[pr[1]].pattern] = toggled[pr[1]].pattern, toggled[pr[0]].pattern
+	}
 	if viol.Load() == nil {
+		// the state all goroutines left behind must be a state of a sequential router: never both spellings of
+		// one route, and Routes(), the Allow sets and dispatch agree with each other
 		routes := r.Routes()
+		for a, b := range rival {
+			if _, ok := routes[a]; ok && a < b {
+				if _, ok := routes[b]; ok {
+					fail(rig.Violf("ambiguous-routes-both-live", "after all goroutines finished Routes() lists both %q and %q, which differ only in parameter names: %v", a, b, routes))
+				}
+			}
+		}
 		for _, tg := range toggled {
+			listed, live := routes[tg.pattern]
+			for _, m := range []string{"GET", "HEAD", "POST", "PUT", "DELETE", "PATCH", "OPTIONS"} {
+				o := rig.Serve(r, rig.Req{Method: m, Path: tg.path})
+				if o.Panicked || o.HandlerNil {
+					fail(rig.Violf("quiescent-fault", "after all goroutines finished %s %s: panicked=%v (%v) zero handler=%v", m, tg.path, o.Panicked, o.PanicVal, o.HandlerNil))
+					continue
+				}
+				if o.Pattern != tg.pattern {
+					continue // answered by another route of higher priority, or 404
+				}
+				has := false
+				for _, x := range listed {
+					has = has || x == m
+				}
+				switch {
+				case !live:
+					fail(rig.Violf("routes-dispatch-disagree", "after all goroutines finished %s %s is answered on route %q (%s), which Routes() does not list: %v", m, tg.path, tg.pattern, o.BaseKind, routes))
+				case m != "OPTIONS" && has != (o.BaseKind == "route"):
+					fail(rig.Violf("routes-dispatch-disagree", "after all goroutines finished Routes()[%q]=%v but %s %s is answered by the %s handler %s", tg.pattern, listed, m, tg.path, o.BaseKind, o.BaseID))
+				case !rig.EqualSets(o.NodeMethods, listed):
+					fail(rig.Violf("routes-dispatch-disagree", "after all goroutines finished Routes()[%q]=%v but the node serving %s %s reports methods %v", tg.pattern, listed, m, tg.path, o.NodeMethods))
+				}
+			}
+		}
+		for _, tg := range toggled {
+			if rv := rival[tg.pattern]; rv != "" && registered[rv] {
+				continue // its registration may have been refused because the other spelling was live
+			}
 			if registered[tg.pattern] && !removable[tg.pattern] {
 				if _, ok := routes[tg.pattern]; !ok {
 					fail(rig.Violf("never-removed-route-lost", "%q was registered and no operation of the program removes it, but after all goroutines finished Routes() does not list it: %v", tg.pattern, routes))
